@@ -5,7 +5,7 @@
    it came about, so every state an earlier run can leave behind — completed, failed, killed between
    any two file operations, with other inputs, chunk sizes or prefixes, torn appends included — is
    covered by the quantification over all directories. *)
-From Mokaverif Require Import Model.Base Model.Confidence Model.PinTsv Model.Fs Proofs.FsP.
+From Mokaverif Require Import Model.Base Model.Confidence Model.PinTsv Model.Fs Proofs.FsP Proofs.FsValP.
 Open Scope Z_scope.
 
 (* ---- generic: any run, as a list of file operations ---- *)
@@ -86,6 +86,39 @@ Theorem C09_untouched : forall g s s', run_ok g -> fs_run g None s = Some s' ->
   forall n, fs_mem n (touched cfn (fs_run_ops g)) = false -> fs_get ccontent s' n = fs_get ccontent s n.
 Proof. exact run_untouched. Qed.
 Print Assumptions C09_untouched.
+
+(* ---- refinement to the abstract effect ---- *)
+
+(* executing the run operation by operation on ANY directory always succeeds and ends in the directory given by
+   [run_effect]: per collection, the run's chunk and level files are absent, each result file holds (after what it
+   held before, for the later ones of several un-prefixed collections) the target resp. decoy rows of that level
+   with their q-values, every other file is as it was *)
+Theorem C09_run_refines_effect : forall g s, run_ok g -> (0 < fg_c g)%nat ->
+  exists s', fs_run g None s = Some s' /\
+    forall n, fs_get ccontent s' n = run_effect g false (fg_colls g) (fs_get ccontent s) n.
+Proof. exact run_exec. Qed.
+Print Assumptions C09_run_refines_effect.
+
+(* for one collection the result files are exactly the outputs of the C03 model (cf_confidence): what C03 proves
+   about them (best row per entity, order, q-values) holds of the files a run leaves in any directory *)
+Theorem C09_results_are_C03 : forall g cl s, run_ok g -> (0 < fg_c g)%nat -> fg_colls g = [cl] ->
+  exists s', fs_run g None s = Some s' /\
+    forall lv, (lv < fg_nlevels g)%nat ->
+      fs_get ccontent s' (NResult (fc_pfx cl) false lv)
+        = Some (fst (nth lv (cf_confidence (fg_c g) (fg_dedup g) (fg_nlevels g) (fc_rows cl)) ([], []))) /\
+      (fg_decoys g = true ->
+       fs_get ccontent s' (NResult (fc_pfx cl) true lv)
+        = Some (snd (nth lv (cf_confidence (fg_c g) (fg_dedup g) (fg_nlevels g) (fc_rows cl)) ([], [])))).
+Proof. exact run_single_results. Qed.
+Print Assumptions C09_results_are_C03.
+
+(* the appends to the file of level j happen batch 0, 1, 2, ... in order, the last one being the final flush —
+   however the batches of different levels interleave *)
+Theorem C09_level_appends_in_order : forall c, (0 < c)%nat -> forall dedup nl stream j, (j < nl)%nat ->
+  ev_of j (fs_level_events c dedup nl stream)
+  = map (pair j) (seq 0 (S (length (nth j (cf_levels_run cf_row cf_lkey dedup nl stream) []) / c))).
+Proof. exact level_events_of_level. Qed.
+Print Assumptions C09_level_appends_in_order.
 
 (* the code before the repair found its chunk files by glob: one stale chunk file of a killed
    earlier run changes the results *)
